@@ -366,7 +366,7 @@ fn soft_keywords_named(cx: &mut Ctx, rule: &str) {
             } else {
                 cx.fail(rule, &format!("{}/soft_to_name", rule), &sk.loc(*f), &format!("soft_to_name table is {:?}", map));
             }
-            let t = sm::tsc(&f.block);
+            let t = sm::tsx(&f.block);
             if t.contains("Tok::Name{name:name.to_owned(),}") || t.contains("Tok::Name{name:name.to_owned()}") {
                 cx.ok(rule, "soft_to_name builds Tok::Name from the spelling");
             } else {
@@ -396,7 +396,7 @@ fn soft_keywords_named(cx: &mut Ctx, rule: &str) {
         cx.fail(rule, &format!("{}/relabel", rule), &sk.loc(nx), &format!("{} rewrites of `next`, {} of which are not a same-range relabelling (at least 4 expected)", assigns, bad));
     }
     // initial binding and return value
-    let t = sm::tsc(&nx.block);
+    let t = sm::tsx(&nx.block);
     if t.contains("letmutnext=self.underlying.next();") && t.ends_with("next}") {
         cx.ok(rule, "next is underlying.next() and is what is returned");
     } else {
@@ -431,7 +431,7 @@ fn soft_keywords_named(cx: &mut Ctx, rule: &str) {
     }
     // constructor: start_of_line initialised for Module|Interactive
     if let Some((_, n)) = sk.methods("SoftKeywordTransformer", "new").into_iter().next() {
-        let t = sm::tsc(&n.block);
+        let t = sm::tsx(&n.block);
         if t.contains("start_of_line:matches!(mode,Mode::Interactive|Mode::Module)") || t.contains("start_of_line:matches!(mode,Mode::Module|Mode::Interactive)") {
             cx.ok(rule, "start_of_line starts true exactly in Module and Interactive mode");
         } else {
@@ -577,7 +577,7 @@ fn parse_args_order(cx: &mut Ctx) {
             other => cx.fail(rule, &format!("{}/{}", rule, v), &f.loc(pa), &format!("`{}` is written by {:?} (exactly one push expected)", v, other)),
         }
     }
-    let t = sm::tsc(&pa.block);
+    let t = sm::tsx(&pa.block);
     if t.ends_with("Ok(ArgumentList{args,keywords})}") {
         cx.ok(rule, "returns ArgumentList { args, keywords }");
     } else {
